@@ -575,13 +575,15 @@ def backend_part(run, rng, thorough):
             if link != "valid" and fluid != pick[0]:
                 continue
             for uname, up in (user_sets if pick.index(fluid) < 8 else user_sets[:2]):
-                ads = Adsorbate(f"zz {link} {uname}", **props, **up)
                 for m in methods:
                     for tcls in (("in", "above") if m in alpha["tdep"] else ("na",)):
                         T = tt.get(tcls)
                         for calc in (True, False):
                             ulist = ["none"] + (units if (uname in ("all", "none") and fluid == pick[0]) else [rng.choice(units)]) if m in alpha["psat"] else ["none"]
                             for unit in ulist:
+                                # a FRESH object per call: every call is a first call (self.backend keeps hidden state,
+                                # also after a failed creation of the CoolProp state)
+                                ads = Adsorbate(f"zz {link} {uname}", **props, **up)
                                 add(ads, f"custom:{link}:{uname}", link, fluid, m, T, tcls, calc, unit)
     # --- hidden state: pairs of calls on ONE object (failure then success, success then failure, ...)
     letters = [(m, tcls, calc) for m in methods for tcls in (("in", "above") if m in alpha["tdep"] else ("na",)) for calc in (True, False)]
@@ -612,9 +614,16 @@ def backend_part(run, rng, thorough):
         fluid = a.properties.get("backend_name")
         link = "valid" if fluid and ref.value(fluid, "molar_mass", None) is not None else ("bogus" if fluid else "none")
         T = temps(fluid)["in"] if link == "valid" else 300.0
-        for m in methods:
+        k0 = pygaps.ADSORBATE_LIST.index(a) % len(methods)
+        for m in methods[k0:] + methods[:k0]:          # the FIRST call on the registry object is a different method for each adsorbate
             for calc in (True, False):
                 add(a, f"shipped:{'linked' if fluid else 'unlinked'}", link, fluid, m, T if m in alpha["tdep"] else None, "in", calc, "none")
+        if not fluid:
+            # adsorbates without backend (some with stored critical / triple data): every method as the first call on a fresh copy
+            props = {k: v for k, v in a.to_dict().items() if k != "name"}
+            for m in methods:
+                clone = Adsorbate(a.name, **{**props, "alias": list(props.get("alias", []))})
+                add(clone, "shipped:unlinked copy", link, fluid, m, T if m in alpha["tdep"] else None, "in", True, "none")
         if fluid and link != "valid":
             run.violation({"site": "registry:live", "adsorbate": a.name, "observed": "backend_name unknown to CoolProp"}, {"backend_name": fluid})
 
@@ -658,7 +667,9 @@ def thermo_part(run, rng, thorough, linked, alpha):
             try:
                 row = {"T": dec_enc(T), "psat": dec_enc(a.saturation_pressure(T)), "rl": dec_enc(a.liquid_density(T)),
                        "rlm": dec_enc(a.liquid_molar_density(T)), "rg": dec_enc(a.gas_density(T)), "rgm": dec_enc(a.gas_molar_density(T)),
-                       "h": dec_enc(a.enthalpy_vaporisation(T)), "pu": {u: dec_enc(a.pressure_saturation(T, unit=u)) for u in units}}
+                       "h": dec_enc(a.enthalpy_vaporisation(T)),
+                       "hp": dec_enc(a.enthalpy_vaporisation(press=a.saturation_pressure(T))),
+                       "hlp": dec_enc(a.enthalpy_liquefaction(press=a.saturation_pressure(T))), "pu": {u: dec_enc(a.pressure_saturation(T, unit=u)) for u in units}}
             except Exception as e:
                 # the property conditions on the backend delivering: a refusal is not a wrong number
                 run.add("thermo_points_refused")
